@@ -558,6 +558,67 @@ def _save_shape(m: '_Module') -> dict:
     return {'snapshot': snapshot, 'loop_line': loop.lineno, 'iter': ast.unparse(loop.iter)}
 
 
+def _container_layout(m: '_Module') -> dict:
+    """Constants of the file container: LUMP_COUNT, GAME_LUMP, PAKFILE, LUMP_WRITE_ORDER (interpreted statement by
+    statement), the two version numbers BSP.read / BSP.save branch on, and the struct formats of header and directory."""
+    order: list[str] | None = None
+    fmts: dict[str, str] = {}
+    versions: dict[str, int] = {}
+    st_fmt = None
+    for n in m.tree.body:
+        if isinstance(n, (ast.Assign, ast.AnnAssign)):
+            tg = n.targets[0] if isinstance(n, ast.Assign) and len(n.targets) == 1 else getattr(n, 'target', None)
+            if isinstance(tg, ast.Name) and tg.id == 'LUMP_WRITE_ORDER':
+                v = n.value
+                if not (isinstance(v, ast.Call) and isinstance(v.func, ast.Name) and v.func.id == 'list' and len(v.args) == 1
+                        and isinstance(v.args[0], ast.Name) and v.args[0].id == 'BSP_LUMPS'):
+                    raise TranslateError(f'bsp.py:{n.lineno}: LUMP_WRITE_ORDER is not list(BSP_LUMPS)')
+                order, seen_vals = [], set()        # Enum iteration: definition order, aliases (repeated values) skipped
+                for k, val in m.lump_vals.items():
+                    if val not in seen_vals:
+                        seen_vals.add(val)
+                        order.append(k)
+            if isinstance(tg, ast.Name) and tg.id in ('HEADER_1', 'HEADER_LUMP', 'HEADER_2'):
+                if not (isinstance(n.value, ast.Constant) and isinstance(n.value.value, str)):
+                    raise TranslateError(f'bsp.py:{n.lineno}: {tg.id} is not a string literal')
+                fmts[tg.id] = n.value.value
+        elif isinstance(n, ast.Expr) and isinstance(n.value, ast.Call) and isinstance(n.value.func, ast.Attribute) \
+                and isinstance(n.value.func.value, ast.Name) and n.value.func.value.id == 'LUMP_WRITE_ORDER':
+            if order is None or len(n.value.args) != 1:
+                raise TranslateError(f'bsp.py:{n.lineno}: LUMP_WRITE_ORDER used before its definition')
+            key = m.lump_key(n.value.args[0], f'bsp.py:{n.lineno}')[2:]
+            key = next(k for k in order + [key] if m.lump_vals[k] == m.lump_vals[key])     # canonical member of an alias group
+            if n.value.func.attr == 'remove':
+                order.remove(key)
+            elif n.value.func.attr == 'append':
+                order.append(key)
+            else:
+                raise TranslateError(f'bsp.py:{n.lineno}: LUMP_WRITE_ORDER.{n.value.func.attr}() not recognised')
+        elif isinstance(n, ast.ClassDef) and n.name == 'VERSIONS':
+            for st in n.body:
+                if isinstance(st, ast.Assign) and len(st.targets) == 1 and isinstance(st.targets[0], ast.Name) \
+                        and isinstance(st.value, ast.Constant) and isinstance(st.value.value, int):
+                    versions[st.targets[0].id] = st.value.value
+        elif isinstance(n, ast.ClassDef) and n.name == 'GameLump':
+            for st in n.body:
+                tg = st.target if isinstance(st, ast.AnnAssign) else (st.targets[0] if isinstance(st, ast.Assign) else None)
+                if isinstance(tg, ast.Name) and tg.id == 'ST':
+                    v = st.value
+                    if not (isinstance(v, ast.Call) and len(v.args) == 1 and isinstance(v.args[0], ast.Constant)):
+                        raise TranslateError(f'bsp.py:{st.lineno}: GameLump.ST not recognised')
+                    st_fmt = v.args[0].value
+    for node in ast.walk(m.tree):       # no other mutation of the write order
+        if isinstance(node, ast.Subscript) and isinstance(node.value, ast.Name) and node.value.id == 'LUMP_WRITE_ORDER' \
+                and isinstance(node.ctx, (ast.Store, ast.Del)):
+            raise TranslateError(f'bsp.py:{node.lineno}: LUMP_WRITE_ORDER is mutated')
+    if order is None or set(fmts) != {'HEADER_1', 'HEADER_LUMP', 'HEADER_2'} or st_fmt is None \
+            or 'L4D2' not in versions or 'VITAMINSOURCE' not in versions:
+        raise TranslateError('container constants (LUMP_WRITE_ORDER, HEADER_*, GameLump.ST, VERSIONS) not all found')
+    return {'nlumps': max(m.lump_vals.values()) + 1, 'gidx': m.lump_vals['GAME_LUMP'], 'pak': m.lump_vals['PAKFILE'],
+            'worder': [m.lump_vals[k] for k in order], 'l4d2': versions['L4D2'], 'vitamin': versions['VITAMINSOURCE'],
+            'formats': [fmts['HEADER_1'], fmts['HEADER_LUMP'], fmts['HEADER_2'], st_fmt]}
+
+
 def _has_return(body: list[ast.stmt]) -> bool:
     return any(isinstance(s, ast.Return) for s in body)
 
@@ -645,6 +706,7 @@ def translate() -> tuple[str, dict]:
     def nl(xs) -> str:
         return '[' + '; '.join(str(x) for x in xs) + ']'
 
+    lay = _container_layout(m)
     gshape = _get_shape(m.tree)
     sshape = _save_shape(m)
     KIND = {'read': 0, 'append': 1, 'mutate': 2, 'escape': 3}
@@ -661,7 +723,7 @@ def translate() -> tuple[str, dict]:
         names[m.lump_num('G:' + c)] = 'game:' + m.consts[c].decode('ascii', 'replace')
     lines = [
         '(* GENERATED by translate/c10_bspgraph.py from src/srctools/bsp.py. Do not edit. *)',
-        'From Coq Require Import List String.', 'From SV Require Import SM.LazyLumps.', 'Import ListNotations.',
+        'From Coq Require Import NArith List String.', 'From SV Require Import SM.LazyLumps Fmt.BspContainer.', 'Import ListNotations.',
         'Open Scope string_scope.',
         '(* views in LUMP_REBUILD_ORDER; view number = position *)',
         'Definition bsp_view_names : list string := [' + '; '.join(f'"{v or "-"}"' for v in view_at) + '].',
@@ -686,6 +748,9 @@ def translate() -> tuple[str, dict]:
         f'Definition bsp_shape : shape := mkShape {cb(gshape["early_main"])} {cb(gshape["early_extra"])} {cb(sshape["snapshot"])}.',
         f'Definition bsp_get_parse_uncached : bool := {cb(gshape["parse_uncached"])}.',
         f'Definition bsp_get_clears_to_clear_after_caching : bool := {cb(gshape["clears_to_clear_after_caching"])}.',
+        '(* constants of the file container *)',
+        f'Definition bsp_layout : layout := mkLay {lay["nlumps"]} {lay["gidx"]} {lay["pak"]} {nl(lay["worder"])} {lay["l4d2"]}%N {lay["vitamin"]}%N.',
+        'Definition bsp_container_formats : list string := [' + '; '.join(f'"{x}"' for x in lay['formats']) + '].',
         '(* lump data stored by a READER (a reader that empties a lump itself does so before __get__ has cached the value) *)',
         'Definition bsp_reader_stores : list (nat * nat) := [' + '; '.join(f'({a}, {b})' for a, b, _ in sorted(set(reader_stores))) + '].',
         '(* how readers / writers use the views they look at: (view, used view, 0 read | 1 append | 2 mutate | 3 escape) *)',
@@ -694,7 +759,7 @@ def translate() -> tuple[str, dict]:
         '',
     ]
     side = {
-        'get_shape': gshape, 'save_shape': sshape,
+        'get_shape': gshape, 'save_shape': sshape, 'container_layout': lay,
         'reader_stores': [[view_at[a], names[b], ln] for a, b, ln in sorted(set(reader_stores))],
         'view_uses': [[w, view_at[a], (view_at[b] if b < len(view_at) else '?'), k, ln] for w, a, b, k, ln in sorted(set(view_uses))],
         'order': order, 'views': side_views, 'not_in_order': not_in_order, 'order_without_view': order_without_view,
